@@ -315,9 +315,12 @@ def scripts_c10(tier, rng):
                 note = f"note c10 cut {nid} {ln} {','.join(map(str, bnd))} {p} 0 {tr}"
                 out.append((n2, pre + [note, "dir", f"cfg tr={tr}", f"fsop cut {nid} {p}", "fsop settle"] + tail))
             zs = [(b, m) for b in bnd for m in ([1, 2, 27, 28, 40] if tier == "quick" else
-                                                 [1, 2, 3, 11, 12, 13, 27, 28, 29, 40, 1023, 1024, 1025, 33000])]
+                                                 [1, 2, 3, 11, 12, 13, 27, 28, 29, 40, 1023, 1024, 1025, 33000,
+                                                  65535, 65536, 65537, 200000])]
             if tier == "quick":
                 zs = [zs[rng.below(len(zs))] for _ in range(5)]
+                # a long zero tail (more than 64 KiB) at one boundary
+                zs.append((bnd[rng.below(len(bnd))], rng.choice([65537, 70001, 131072])))
             for (b, m) in zs:
                 n2 = f"{name}t{tr}z{b}m{m}"
                 tail = ["dir", "open", "st", READALL, "dir"]
